@@ -343,7 +343,43 @@ func implDecin(p *vproto.Parser) string {
 	return state + " " + r1
 }
 
+// bin <bo> <32 hex digits>: the encoding/binary primitives themselves (the tie of lean/GeomV/C05/BinStd.lean):
+// order.Uint32/Uint64 of the first bytes, PutUint32/PutUint64 of those values, binary.Read of a geom.Point from
+// the 16 bytes behind a one-byte reader, binary.Write of that point.
+func implBin(p *vproto.Parser) string {
+	o := bo(p.Next())
+	b, err := hex.DecodeString(p.Next())
+	if err != nil || len(b) != 16 {
+		panic("bin: 16 bytes expected")
+	}
+	u32, u64 := o.Uint32(b[:4]), o.Uint64(b[:8])
+	p32, p64 := make([]byte, 4), make([]byte, 8)
+	o.PutUint32(p32, u32)
+	o.PutUint64(p64, u64)
+	var pt geom.Point
+	if err := binary.Read(&scriptReader{evs: []ev{{kind: 'd', data: append([]byte(nil), b[:1]...)}, {kind: 'd', data: append([]byte(nil), b[1:]...)}}}, o, &pt); err != nil {
+		return "readerr"
+	}
+	var w bytes.Buffer
+	if err := binary.Write(&w, o, &pt); err != nil {
+		return "writeerr"
+	}
+	var w32 bytes.Buffer
+	binary.Write(&w32, o, u32)
+	return fmt.Sprintf("%d %016x %x %x %s %s %x %x", u32, u64, p32, p64, vproto.F2H(pt.X), vproto.F2H(pt.Y), w.Bytes(), w32.Bytes())
+}
+
 func genStream(out *bufio.Writer, r *vproto.Rng, n int) {
+	for i := 0; i < 60; i++ {
+		var b [16]byte
+		for j := range b {
+			b[j] = byte(r.Intn(256))
+			if i%7 == 0 && r.Intn(2) == 0 {
+				b[j] = []byte{0, 0xff, 0x80, 0x7f}[r.Intn(4)]
+			}
+		}
+		fmt.Fprintf(out, "bin %s %x\n", []string{"X", "N"}[i%2], b[:])
+	}
 	small := func() geom.Geom { return genGeom(r, 2) }
 	// several values on one stream behind scripted readers (cut and failed by the Lean prep stage from the
 	// independent serializer's bytes)
